@@ -86,7 +86,10 @@ class ProcedureBank(object):
             if self._default_str_storage == b09.DEFAULT_STR_STORAGE
             else f"[{self._default_str_storage}]"
         )
-        return re.sub(STR_STORAGE_TAG, str_storage_text, raw_text)
+        return "\n".join(
+            re.sub(STR_STORAGE_TAG, str_storage_text, line)
+            for line in raw_text.split("\n")
+        )
 
     def _get_procedure_and_dependency_names(self, procedure_name):
         """
